@@ -37,20 +37,21 @@ type muState struct {
 }
 
 type sched struct {
-	thr        []*thr
-	cur        *thr
-	mus        map[uintptr]*muState
-	timers     map[*time.Timer]*thr
-	killed     bool
-	aborted    bool
-	preempt    int
-	preemptOn  bool
-	decisions  []int
-	pos        int
-	idleTimers bool
-	deadlock   bool
-	panicMsg   string
-	panicStack string
+	thr         []*thr
+	cur         *thr
+	mus         map[uintptr]*muState
+	timers      map[*time.Timer]*thr
+	killed      bool
+	aborted     bool
+	preempt     int
+	preemptOn   bool
+	unlockYield bool
+	decisions   []int
+	pos         int
+	idleTimers  bool
+	deadlock    bool
+	panicMsg    string
+	panicStack  string
 }
 
 var S *sched
@@ -281,6 +282,9 @@ func AfterUnlock(mu any, read bool) {
 			t.state, t.waitMu = stReady, 0
 		}
 	}
+	if s.unlockYield {
+		s.yield()
+	}
 }
 
 func DeferredUnlock(mu any, unlock func(), read bool) {
@@ -466,6 +470,13 @@ func PreemptOn() {
 func PreemptOff() {
 	if s := S; s != nil {
 		s.preemptOn = false
+	}
+}
+
+// PreemptAtUnlock makes mutex releases pre-emption points as well (default: acquisitions only).
+func PreemptAtUnlock(on bool) {
+	if s := S; s != nil {
+		s.unlockYield = on
 	}
 }
 
